@@ -1,6 +1,7 @@
 /* C19: the held-message queue of a pending activation, bus/activation.c.
  *   VERIF_FN == 2  bus_activation_send_pending_auto_activation_messages   B, <= 3 waiters
  *   VERIF_FN == 3  try_send_activation_failure (static)                    B, <= 3 waiters
+ *   VERIF_FN == 5  bus_activation_service_created                          B, <= 3 waiters
  *   VERIF_FN == 4  pending_activation_failed (static)                      hybrid: retry loop closed by a loop
  *                  contract (contracts/c19_activation.ovl), try_send_activation_failure by its contract
  * The waiter list (circular DBusList) is built by the harness; the real accessors of dbus/dbus-list.c are
@@ -12,6 +13,8 @@
  * exactly one error". */
 #include <config.h>
 #include "dbus/dbus-internals.h"
+#include <stdlib.h>
+#include <string.h>
 #ifndef VERIF_N
 #define VERIF_N 3
 #endif
@@ -63,8 +66,23 @@ void bus_connection_send_oom_error (DBusConnection *connection, DBusMessage *in_
 BusTransaction *bus_transaction_new (BusContext *c) { PRE(c == (BusContext *)&o_ctx, "bus_transaction_new"); Q.txn_new++; return nondet_bool() ? (BusTransaction *)&o_txn : NULL; }
 void bus_transaction_execute_and_free (BusTransaction *t) { PRE(t == (BusTransaction *)&o_txn && Q.executed == 0 && Q.cancelled == 0, "bus_transaction_execute_and_free: once"); Q.executed++; }
 void bus_transaction_cancel_and_free (BusTransaction *t) { PRE(t == (BusTransaction *)&o_txn && Q.executed == 0 && Q.cancelled == 0, "bus_transaction_cancel_and_free: once"); Q.cancelled++; }
+#if VERIF_FN == 5
+#include <stdarg.h>
+static char replies[VERIF_N]; static struct { unsigned made[VERIF_N], sent[VERIF_N], unrefs[VERIF_N], order[VERIF_N], seq, success_value_ok[VERIF_N]; } R;
+static int idx_of_reply (DBusMessage *m) { for (int i = 0; i < VERIF_N; i++) if (m == (DBusMessage *)&replies[i]) return i; return -1; }
+DBusMessage *dbus_message_new_method_return (DBusMessage *call) { int k = idx_of_msg(call); PRE(k >= 0 && R.made[k] == 0, "dbus_message_new_method_return: one reply per held StartServiceByName call"); __CPROVER_assume(k >= 0 && k < VERIF_N); if (nondet_bool()) return NULL; R.made[k]++; return (DBusMessage *)&replies[k]; }
+dbus_bool_t dbus_message_append_args (DBusMessage *m, int first_arg_type, ...)
+{ int k = idx_of_reply(m); PRE(k >= 0 && first_arg_type == DBUS_TYPE_UINT32, "dbus_message_append_args: UINT32 result on the reply"); __CPROVER_assume(k >= 0 && k < VERIF_N);
+  va_list ap; va_start(ap, first_arg_type); dbus_uint32_t *v = va_arg(ap, dbus_uint32_t *); int end = va_arg(ap, int); va_end(ap);
+  PRE(v != NULL && end == DBUS_TYPE_INVALID, "dbus_message_append_args: one argument"); if (nondet_bool()) return 0; R.success_value_ok[k] = (*v == DBUS_START_REPLY_SUCCESS); return 1; }
+dbus_bool_t bus_transaction_send_from_driver (BusTransaction *t, DBusConnection *c, DBusMessage *m)
+{ int k = idx_of_reply(m); PRE(t == (BusTransaction *)&o_txn && k >= 0 && c != NULL && c == ent[k].connection && R.success_value_ok[k], "bus_transaction_send_from_driver: SUCCESS reply k to the caller that asked, in the caller's transaction");
+  __CPROVER_assume(k >= 0 && k < VERIF_N); if (nondet_bool()) return 0; R.sent[k]++; R.order[k] = ++R.seq; return 1; }
+void dbus_message_unref (DBusMessage *m) { int k = idx_of_reply(m); if (k >= 0) R.unrefs[k]++; }
+#else
 /* entry release (only reached when the last reference goes): not of interest here */
 void dbus_message_unref (DBusMessage *m) {}
+#endif
 void dbus_connection_unref (DBusConnection *c) {}
 DBusLoop *bus_context_get_loop (BusContext *c) { return nondet_ptr(); }
 void _dbus_loop_remove_timeout (DBusLoop *l, DBusTimeout *t) {}
@@ -116,7 +134,7 @@ void harness (void)
 {
   build();
 #if VERIF_FN == 2
-  g_map_has = nondet_bool();
+  g_map_has = nondet_bool(); _Bool had_pending = g_map_has;
   dbus_bool_t ret = bus_activation_send_pending_auto_activation_messages (&A, (BusService *)&o_service, (BusTransaction *)&o_txn);
   unsigned last = 0;
   for (int i = 0; i < VERIF_N; i++)
@@ -124,17 +142,32 @@ void harness (void)
       _Bool in = (unsigned)i < n_ent;
       _Bool due = in && ent[i].auto_activation && (ent[i].connection == NULL || connected[i]);
       if (!in || !ret) continue;
-      if (Q.removed == 0) { __CPROVER_assert(Q.dispatched[i] == 0, "post0 no pending activation for the name => nothing is dispatched"); continue; }
+      if (!had_pending) { __CPROVER_assert(Q.dispatched[i] == 0 && Q.removed == 0, "post0 no pending activation for the name => nothing is dispatched"); continue; }
       __CPROVER_assert(Q.dispatched[i] == (due ? 1 : 0), "post1 each held auto-start message of a live sender is dispatched exactly once; explicit StartServiceByName waiters and dead senders never (ACT_ONCE_IN_ORDER)");
       __CPROVER_assert(IMP(due && Q.dispatch_fails[i], Q.err_replies[i] + Q.oom_replies[i] == 1), "post2 a held message refused at dispatch (policy or OOM) is answered with exactly one error to its sender");
       __CPROVER_assert(IMP(!(due && Q.dispatch_fails[i]), Q.err_replies[i] + Q.oom_replies[i] == 0), "post3 no error for a delivered message");
       if (due) { __CPROVER_assert(Q.order[i] > last, "post4 held messages are dispatched in arrival (list) order"); last = Q.order[i]; }
     }
-  __CPROVER_assert(IMP(ret && Q.seq > 0, Q.removed == 1 && !g_map_has), "post5 after dispatch the held messages are removed from the pending table (cannot be delivered twice)");
+  __CPROVER_assert(IMP(ret && had_pending, Q.removed == 1 && !g_map_has), "post5 after dispatch the held messages are removed from the pending table (cannot be delivered twice)");
   __CPROVER_assert(IMP(!ret, Q.removed == 0 && g_map_has && Q.hooks == 0), "post6 failure (OOM while arming the restore hook) removes nothing; the caller cancels the transaction");
   __CPROVER_assert(IMP(ret && Q.removed == 1, Q.hooks == 1), "post7 removal is undone if the transaction is cancelled (restore hook armed first)");
-  if (ret && Q.removed == 1) REACH("delivered"); if (ret && Q.removed == 0) REACH("no-pending"); if (!ret) REACH("oom");
+  if (ret && had_pending) REACH("delivered"); if (ret && !had_pending) REACH("no-pending"); if (!ret) REACH("oom");
   if (ret && n_ent == 3 && Q.seq == 3) REACH("three-dispatched"); if (ret && Q.err_replies[0] == 1) REACH("denied-first");
+#elif VERIF_FN == 5
+  g_map_has = nondet_bool(); _Bool had_pending = g_map_has; DBusError err; err.name = NULL; err.message = NULL;
+  dbus_bool_t ret = bus_activation_service_created (&A, g_name, (BusTransaction *)&o_txn, &err);
+  unsigned last = 0;
+  for (int i = 0; i < VERIF_N; i++)
+    {
+      if ((unsigned)i >= n_ent) continue;
+      _Bool due = had_pending && ent[i].connection != NULL && connected[i] && !ent[i].auto_activation;
+      __CPROVER_assert(IMP(ret, R.sent[i] == (due ? 1 : 0)), "post1 every connected StartServiceByName caller gets exactly one SUCCESS reply; auto-start senders get none (their message is delivered instead) (S8)");
+      __CPROVER_assert(R.sent[i] <= 1 && R.made[i] == R.unrefs[i], "post2 never two replies to one caller; every reply object released");
+      if (ret && due) { __CPROVER_assert(R.order[i] > last, "post3 replies are queued in waiter order"); last = R.order[i]; }
+    }
+  __CPROVER_assert(IMP(!ret, ERR_SET(&err)), "post4 failure (OOM) carries an error; the caller cancels the transaction");
+  __CPROVER_assert(Q.removed == 0 && g_map_has == had_pending, "post5 the pending activation stays registered (held messages are dispatched later by send_pending_auto_activation_messages)");
+  if (ret && had_pending) REACH("answered"); if (ret && !had_pending) REACH("no-pending"); if (!ret) REACH("oom"); if (ret && R.seq == 3) REACH("three-replies");
 #elif VERIF_FN == 3
   DBusError how; how.name = DBUS_ERROR_SPAWN_EXEC_FAILED; how.message = some_string;
   dbus_bool_t ret = try_send_activation_failure (g_pending, &how);
